@@ -15,9 +15,11 @@ import (
 
 // value kinds: 0 System value, 1 FHIR primitive, 2 complex element, 3 collection of those, 4 empty collection,
 // 5 collection nesting an unsupported Go value, 6 unsupported Go value, 7 nil, 8 collection nesting a collection of
-// supported values (a collection holds items, not collections: nothing downstream flattens or expects one)
+// supported values (a collection holds items, not collections: nothing downstream flattens or expects one), 9 a nil
+// pointer of an element, resource or System type (alone or in a collection), 10 a pointer to a System value - pointers
+// satisfy the item interfaces without being items
 func verifEnvValue(label string) (any, bool) {
-	switch verifrt.Choose(label+".kind", 9) {
+	switch verifrt.Choose(label+".kind", 11) {
 	case 0:
 		return system.Integer(verifrt.NondetInt32(label + ".i")), true
 	case 1:
@@ -39,6 +41,23 @@ func verifEnvValue(label string) (any, bool) {
 		return c, false
 	case 6:
 		return 42, false
+	case 9:
+		var v any
+		switch verifrt.Choose(label+".nilOf", 3) {
+		case 0:
+			v = (*dtpb.String)(nil)
+		case 1:
+			v = (*dtpb.HumanName)(nil)
+		default:
+			v = (*system.String)(nil)
+		}
+		if verifrt.NondetBool(label + ".inCollection") {
+			return system.Collection{system.Integer(1), v}, false
+		}
+		return v, false
+	case 10:
+		s := system.String(verifrt.NondetString(label+".ps", 1))
+		return &s, false
 	case 8:
 		inner := system.Collection{system.Integer(verifrt.NondetInt32(label + ".n0"))}
 		if verifrt.NondetBool(label + ".innerEmpty") {
